@@ -176,7 +176,7 @@ def run(prop, tier, only=None, V=None):
                             x=FX.fixseq(x) if x else [FX.fix(0.0)] * 4))
         index[rid] = dict(structure=s["id"], case=c0["case"], b=c0["b"], outcome=outcome, x=x, error=err)
         rid += 1
-        if characs and (rid % 7 == 0 or thorough):
+        if characs:  # (every accepted case: which cases produce a ratio below the 1e-6 zero rule must not depend on a sampling stride)
             for (name, ti, val, num, den, hasden) in characs:
                 isinf = bool(np.isposinf(val))  # x/0 with x > 0 is reported as +inf: the true value of the ratio, accepted only in that situation
                 if not all(np.isfinite(v) for v in (num, den)) or not (np.isfinite(val) or isinf):
